@@ -734,3 +734,40 @@ fn run_direct(d: &Value, ctx: &mut Ctx) -> Verdict {
         _ => Err(Failure::fault("unknown direct case")),
     }
 }
+
+/// libFuzzer entry: first two bytes choose end-of-stream / pending pattern / chunking seed, the rest are the stream bytes
+pub fn fuzz_bytes(data: &[u8], ctx: &mut Ctx) -> Verdict {
+    if data.len() < 2 {
+        return Ok(());
+    }
+    let (ctl, b) = data.split_at(2);
+    let eos = ctl[0] & 1 == 1;
+    let pend = (ctl[0] >> 1) % 3;
+    let seg = rf::segment(b);
+    check_decode(b, &seg, ctx)?;
+    // chunking from a PRF of the second control byte: sizes 1..8 or whole
+    let chunks: Vec<Vec<u8>> = match ctl[1] % 4 {
+        0 => {
+            if b.is_empty() {
+                vec![]
+            } else {
+                vec![b.to_vec()]
+            }
+        }
+        1 => b.iter().map(|x| vec![*x]).collect(),
+        _ => {
+            let sizes = crate::tape::prf_bytes(ctl[1] as u64, b.len() + 1);
+            let mut out = Vec::new();
+            let mut pos = 0;
+            let mut i = 0;
+            while pos < b.len() {
+                let n = (1 + (sizes[i] % 8) as usize).min(b.len() - pos);
+                out.push(b[pos..pos + n].to_vec());
+                pos += n;
+                i += 1;
+            }
+            out
+        }
+    };
+    check_stream(b, chunks, eos, pend, &seg, ctx)
+}
